@@ -3,8 +3,8 @@ package checks
 import (
 	"fmt"
 	"os"
-	"reflect"
 	"path/filepath"
+	"reflect"
 	"sort"
 	"strings"
 	"sync"
@@ -121,7 +121,7 @@ func (v *recVisitor) Visit(n ast.Node) ast.Visitor {
 	return &recVisitor{v.log, v.path}
 }
 func (v *recVisitor) VisitMany(ns []ast.Node) ast.Visitor { return v }
-func (v *recVisitor) Field(name string) ast.Visitor      { return &recVisitor{v.log, v.path + "." + name} }
+func (v *recVisitor) Field(name string) ast.Visitor       { return &recVisitor{v.log, v.path + "." + name} }
 func (v *recVisitor) Index(i int) ast.Visitor {
 	return &recVisitor{v.log, fmt.Sprintf("%s[%d]", v.path, i)}
 }
